@@ -25,12 +25,14 @@ F_SYM = [
     "scale(a)", "center(a) + A", "standardize(b):A", "poly(a, 2) + B", "a:A + scale(b)", "{a+b} + C(A, contr.sum)",
     "I(a*2):B + center(b)", "scale(a, ddof=0) + scale(b, center=False)", "0 + A:center(a)", "poly(b, 3, raw=True):A",
     "C(A, contr.helmert):a + b", "center(a):center(b)",
+    # stateful transforms nested inside other calls / expressions (their state is keyed by the call text, not by a factor)
+    "poly(center(a), 2)", "{center(a) * 2}:A + b", "scale(center(b)) + a",
 ]
 # formulas trained on concrete data (data-dependent knots), followed up with symbolic rows
 F_CONC = F_SYM + [
     "bs(a, df=4)", "bs(a, df=5, degree=2, include_intercept=True) + A", "cr(a, df=3)", "cc(a, df=3):A",
     "bs(b, knots=[2, 4], lower_bound=0, upper_bound=8, extrapolation='clip') + a", "cr(b, df=4, constraints='center')",
-    "A:bs(a, df=3, degree=1)",
+    "A:bs(a, df=3, degree=1)", "bs(scale(a), df=4)", "np.exp(center(a) / 4) + A", "cr(center(b), df=3):A",
 ]
 
 A_TRAIN = [0.5, 1.25, 2.0, 3.5, 4.75, 6.0, 7.5]
